@@ -217,6 +217,7 @@ class Snapshot:
                         self.extra.setdefault(id(s), set()).add(a)
             self.extra.setdefault(id(t), set()).add(a)
         self.base = self.take()
+        self.origin = self.base
 
     def take(self):
         import inspect
@@ -585,6 +586,7 @@ def worker_history(seed, tier, out_path):
         stats["kinds"][kind] = stats["kinds"].get(kind, 0) + 1
         before = _call(*eager) if eager else None
         raised = None
+        snap.base = snap.take()          # the property is per call: compare with the state right before it
         try:
             thunk()
         except Exception as e:  # noqa: BLE001
@@ -632,6 +634,117 @@ def worker_history(seed, tier, out_path):
     check_probes("end of history", idx)
     res["obs_end"] = uni.observe()
 
+    # ---------------- histories [convert; the HOST rebinds / deletes a patched attribute; convert]
+    import inspect as _inspect
+    import importlib
+    rebind_log = []
+
+    def _resolve_attr(path):
+        mod, _, name = path.rpartition(".")
+        try:
+            return importlib.import_module(mod), name
+        except Exception:  # noqa: BLE001
+            m2, _, cls = mod.rpartition(".")
+            return getattr(importlib.import_module(m2), cls), name
+    conv_block = nnx.Conv(1, 1, kernel_size=(1,), rngs=nnx.Rngs(3))
+    xc = jnp.ones((1, 4, 1), jnp.float32)
+    lconv = nn.Conv(features=1, kernel_size=(1,))
+    lconv_params = lconv.init(jax.random.PRNGKey(5), xc)
+    G_main = sys.modules["__main__"]
+    # (attribute, mechanism(s) that patch it, conversion exercised, eager callable that goes through the attribute)
+    rebind_targets = [
+        ("flax.nnx.relu", (nnx, "relu"), lambda: to_onnx(lambda x: nnx.relu(x) + 1.0, [(3,)]), (lambda: nnx.relu(x3) + 1.0)),
+        ("flax.nnx.nn.linear.Conv.__call__", (nnx.Conv, "__call__"), lambda: to_onnx(lambda x: jnp.sin(x), [(3,)]), (lambda: conv_block(xc))),
+        ("flax.linen.linear.Conv.__call__", (nn.Conv, "__call__"), lambda: to_onnx(lambda x: jnp.sin(x), [(3,)]), (lambda: lconv.apply(lconv_params, xc))),
+        ("__main__.user_scale", (G_main, "user_scale"), lambda: to_onnx(lambda x: G_main.user_scale(x) + 1.0, [(3,)]), (lambda: G_main.user_scale(x3))),
+        ("__main__.UserBlock.__call__", (UserBlock, "__call__"), lambda: to_onnx(lambda x: block(x), [(2, 4)]), (lambda: block(x4))),
+        ("jax.numpy.sin", (jnp, "sin"), lambda: to_onnx(lambda x: jnp.sin(x) * 2.0, [(3,)]), (lambda: jnp.sin(x3) * 2.0)),
+        ("flax.nnx.nn.linear.Linear.__call__", (nnx.Linear, "__call__"), lambda: to_onnx(lambda x: linear(x), [(2, 4)]), (lambda: linear(x4))),
+        ("jax.nn.relu", (jax.nn, "relu"), lambda: to_onnx(lambda x: jax.nn.relu(x), [(3,)]), (lambda: jax.nn.relu(x3))),
+    ]
+    amp_ids = {(id(t), a) for (t, a) in amp}
+    leaf_ids = {(id(t), a) for fr in frames for (t, a, _k, _n) in fr}
+
+    def rebind_history(name, obj, attr, kind, conv, eager):
+        mech = "+".join(m for m, ids in (("apply_monkey_patches", amp_ids), ("apply_patches", leaf_ids)) if (id(obj), attr) in ids) or "unpatched"
+        d = vars(obj)
+        had_own = attr in d
+        orig_own = d.get(attr, MISSING)
+        cur = getattr(obj, attr, MISSING)
+        if cur is MISSING or (kind == "delete" and not had_own):
+            return
+        calls = [0]
+        steps = ["to_onnx"]
+        try:
+            conv()
+        except Exception:  # noqa: BLE001
+            pass
+        if kind == "wrapper":
+            def host_binding(*a, **k):
+                calls[0] += 1
+                return cur(*a, **k)
+            try:
+                host_binding.__signature__ = _inspect.signature(cur)
+            except Exception:  # noqa: BLE001
+                pass
+        elif kind == "different":
+            def host_binding(*a, **k):       # a different function object of the host (same behaviour, so models keep working)
+                calls[0] += 1
+                return cur(*a, **k)
+            host_binding.__name__ = getattr(cur, "__name__", "f")
+            host_binding.__qualname__ = "host_redefinition"
+        if kind == "delete":
+            delattr(obj, attr)
+            steps.append(f"host: del {name}")
+        else:
+            setattr(obj, attr, host_binding)
+            steps.append(f"host: {name} = <{kind}>")
+        try:
+            for rnd in range(2):
+                pre_static = _inspect.getattr_static(obj, attr, MISSING)
+                pre_own = vars(obj).get(attr, MISSING)
+                pre_eager = _call(eager)
+                snap.base = snap.take()
+                raised = None
+                try:
+                    conv()
+                except Exception as e:  # noqa: BLE001
+                    raised = f"{type(e).__name__}: {str(e)[:80]}"
+                steps.append("to_onnx" + (f" (raised {raised})" if raised else ""))
+                stats["conversions"] += 1
+                post_static = _inspect.getattr_static(obj, attr, MISSING)
+                post_own = vars(obj).get(attr, MISSING)
+                c0 = calls[0]
+                post_eager = _call(eager)
+                went_through = (kind == "delete") or pre_eager[0] != "ok" or calls[0] > c0
+                ok = (post_static is pre_static) and (post_own is pre_own) and _same_result(pre_eager, post_eager) and went_through
+                rebind_log.append({"attr": name, "kind": kind, "mechanism": mech, "round": rnd, "ok": bool(ok), "raised": raised})
+                if not ok:
+                    finding(f"host-binding-lost:{name}:{kind}",
+                            f"history {steps}: right before the last to_onnx {name} was the host's {pre_static!r}"[:300]
+                            + f"; after it {name} is {post_static!r}"[:200]
+                            + (f" (own entry {pre_own!r} -> {post_own!r})"[:160] if post_own is not pre_own else "")
+                            + ("" if went_through else "; eager calls no longer go through the host's binding")
+                            + f" [patched by {mech}]",
+                            {"kind": "rebind", "seed": seed, "attr": name, "rebinding": kind, "history": steps})
+                check_after(f"rebind:{name}:{kind}", -2)
+        finally:
+            if had_own:
+                setattr(obj, attr, orig_own)
+            elif attr in vars(obj):
+                delattr(obj, attr)
+    for (name, (obj, attr), conv, eager) in rebind_targets:
+        for kind in ("wrapper", "different"):
+            rebind_history(name, obj, attr, kind, conv, eager)
+    for (name, (obj, attr), conv, eager) in rebind_targets:
+        if name in ("__main__.user_scale", "jax.nn.relu", "__main__.UserBlock.__call__"):
+            rebind_history(name, obj, attr, "delete", conv, eager)
+    res["rebind_log"] = rebind_log
+    # cumulative: everything the host did not change itself is still what it was at the start
+    snap.base = snap.origin
+    check_after("end of all histories (cumulative)", idx)
+    check_probes("after host-rebinding histories", idx)
+
     # ---------------- (e) jit trace cache: behavioural tie + known defect
     cache_cases = []
 
@@ -665,6 +778,7 @@ def worker_history(seed, tier, out_path):
                 f = (lambda g: (lambda x: g(x) + 1.0))(g)
                 spec = [tuple(a.shape)]
                 exported = None
+                snap.base = snap.take()
                 try:
                     if ev == "XF":
                         pl = ps.PLUGIN_REGISTRY.get("add")
@@ -1056,6 +1170,129 @@ def gen_amp_case(rng, ci):
     return lit, info
 
 
+def gen_amp_history_case(rng, ci):
+    """activations of the same keys in SEQUENCE, the host rebinding / deleting attributes (mostly
+    patched ones) between them; _PATCH_STATE and anything else the real function keeps is NOT reset
+    between the rounds"""
+    from unittest import mock
+    from jax2onnx.plugins import plugin_system as ps
+    targets, classes, mro, own = _synth_targets(rng)
+    ks_model, stubs = [], {}
+    for si in range(rng.randint(1, 3)):
+        ai = rng.randrange(len(ATTRS))
+        resolvable = [i for i, t in enumerate(targets) if getattr(t, ATTRS[ai], MISSING) is not MISSING]
+        tis = [rng.choice(resolvable) if resolvable and rng.random() < 0.95 else rng.randrange(len(targets))
+               for _ in range(rng.choice([1, 1, 2]))]
+        base = 10000 * (si + 1)
+        fn = (lambda b: (lambda orig: Val(b + orig.id + 1)))(base)
+
+        class _Stub:
+            pass
+        st = _Stub()
+        st.patch_info = (lambda tl, f, an: (lambda: {"patch_targets": tl, "patch_function": f, "target_attribute": an}))(
+            [targets[i] for i in tis], fn, ATTRS[ai])
+        stubs[f"c13_hstub_{si}"] = st
+        for ti in tis:
+            ks_model.append((ti, ai, f"(PfAffine {base}%N)"))
+    ps._PATCH_STATE.clear()
+    rounds_lit, rounds_info = [], []
+    lost = None
+    with mock.patch.dict(ps.PLUGIN_REGISTRY, stubs, clear=True):
+        for r in range(rng.randint(2, 4)):
+            w = None
+            if r > 0 and rng.random() < 0.85:
+                ti, ai, _p = rng.choice(ks_model) if rng.random() < 0.8 else (rng.randrange(len(targets)), rng.randrange(len(ATTRS)), None)
+                t, a = targets[ti], ATTRS[ai]
+                if a in vars(t) and rng.random() < 0.3:
+                    delattr(t, a)
+                    w = (ti, ai, None)
+                else:
+                    v = Val(500 + 10 * r + ai)
+                    setattr(t, a, v)
+                    w = (ti, ai, v.id)
+            depth = rng.randint(1, 2)
+            body_raises = rng.random() < 0.25
+            pre = _observe(targets)
+
+            def rec(d):
+                if d == 0:
+                    if body_raises:
+                        raise _BodyError()
+                    return
+                with ps.apply_monkey_patches():
+                    rec(d - 1)
+            try:
+                rec(depth)
+                oc = "Returned"
+            except Exception:  # noqa: BLE001
+                oc = "Raised"
+            after = _observe(targets)
+            psafter = []
+            for ti2, t2 in enumerate(targets):
+                for ai2, a2 in enumerate(ATTRS):
+                    st = ps._PATCH_STATE.get((t2, a2))
+                    psafter.append((ti2, ai2, None if st is None else (st["orig"].id, st["count"], bool(st.get("owned", True)))))
+            wl = "None" if w is None else f"(Some ({w[0]},{w[1]},{_opt(w[2])}))"
+            rounds_lit.append(f"({wl}, {depth}%nat, {_b(not body_raises)}, {_obs_lit(after)}, "
+                              + _lst(f"({t3},{a3},{'None' if e is None else f'(Some ({e[0]}%N,{e[1]}%Z,{_b(e[2])}))'})" for (t3, a3, e) in psafter)
+                              + f", {oc})")
+            rounds_info.append({"host_write": w, "depth": depth, "body_raises": body_raises, "outcome": oc,
+                                "getattr_before_call": [x[3] for x in pre], "getattr_after_call": [x[3] for x in after]})
+            if lost is None and [x[3] for x in pre] != [x[3] for x in after]:
+                lost = r
+    ps._PATCH_STATE.clear()
+    lit = ("(" + _lst(f"({i},{_lst(map(str, m))})" for i, m in enumerate(mro)) + ", "
+           + _lst(f"({t},{a},{v}%N)" for (t, a, v) in own) + ", "
+           + _lst(f"({t},{a},{p})" for (t, a, p) in ks_model) + ", " + _lst(rounds_lit) + ")")
+    info = {"rounds": rounds_info, "call_changed_getattr_in_round": lost,
+            "host_writes": sum(1 for x in rounds_info if x["host_write"]),
+            "host_writes_on_patched_keys": sum(1 for x in rounds_info if x["host_write"] and
+                                               any((x["host_write"][0], x["host_write"][1]) == (k[0], k[1]) for k in ks_model)),
+            "model": {"mro": mro, "own": own, "keys": ks_model}}
+    return lit, info
+
+
+def cross_call_state_scan():
+    """AST scan: module-level mutable containers that apply_monkey_patches / _iter_patch_specs /
+    apply_patches WRITE to.  The model keeps nothing between calls except _PATCH_STATE (which every
+    call returns unchanged, empty at top level)."""
+    import ast
+    import inspect
+    import textwrap
+    from jax2onnx.plugins import plugin_system as ps
+    from jax2onnx.plugins import _patching as pt
+    found = []
+    mutators = {"setdefault", "update", "pop", "popitem", "append", "add", "extend", "insert", "remove", "discard", "clear", "__setitem__"}
+    for mod, fn in ((ps, ps.apply_monkey_patches), (ps, ps._iter_patch_specs), (pt, pt.apply_patches)):
+        f = getattr(fn, "__wrapped__", fn)
+        tree = ast.parse(textwrap.dedent(inspect.getsource(f)))
+        local = {a.arg for n in ast.walk(tree) if isinstance(n, ast.FunctionDef) for a in n.args.args}
+        for n in ast.walk(tree):
+            if isinstance(n, (ast.Assign, ast.AnnAssign, ast.AugAssign)):
+                tg = n.targets if isinstance(n, ast.Assign) else [n.target]
+                for t in tg:
+                    for nn in ast.walk(t):
+                        if isinstance(nn, ast.Name) and isinstance(t, (ast.Name, ast.Tuple)):
+                            local.add(nn.id)
+        def is_global_container(name):
+            if name in local or not hasattr(mod, name):
+                return False
+            return isinstance(getattr(mod, name), (dict, list, set)) or hasattr(getattr(mod, name), "__setitem__")
+        for n in ast.walk(tree):
+            name = None
+            if isinstance(n, ast.Subscript) and isinstance(n.ctx, (ast.Store, ast.Del)) and isinstance(n.value, ast.Name):
+                name = n.value.id
+            elif isinstance(n, ast.Call) and isinstance(n.func, ast.Attribute) and n.func.attr in mutators and isinstance(n.func.value, ast.Name):
+                name = n.func.value.id
+            elif isinstance(n, ast.Global):
+                for g in n.names:
+                    if g != "_PATCH_STATE":
+                        found.append(f"{f.__name__}: global {g}")
+            if name and name != "_PATCH_STATE" and is_global_container(name):
+                found.append(f"{f.__name__}: writes module-level {name}")
+    return sorted(set(found))
+
+
 def probe_code_shape():
     """which shape of the patch code is running (Patch.v: fixed = true since /repo b0781c1).
     -> (apply_patches restores an unowned attribute by delattr?, apply_monkey_patches likewise?,
@@ -1175,6 +1412,16 @@ def _collect(proc, out_path, timeout):
     return json.load(open(out_path)), ""
 
 
+def _dedupe(ctx):
+    """one violation per key (the first concrete input found for it)"""
+    seen, out = set(), []
+    for v in ctx.violations:
+        if v["key"] not in seen:
+            seen.add(v["key"])
+            out.append(v)
+    ctx.violations[:] = out
+
+
 def run(ctx):
     import common
     rng = ctx.rng
@@ -1194,6 +1441,8 @@ def run(ctx):
         "no asynchronous exception (KeyboardInterrupt, MemoryError) between setattr and applied.append "
         "(C13_async_fault_after_setattr_leaks shows the leak if one strikes there)",
         "setattr that succeeded when applying succeeds when restoring (the finally loop has no handler around setattr)",
+        "the property is checked per call: every snapshot comparison is against the state immediately before that to_onnx call "
+        "(the host may rebind attributes between calls); a cumulative comparison with the initial state closes the run",
         "snapshot scope: modules loaded in the worker whose top-level package is one of " + ", ".join(SCOPE) +
         " and every class a patch spec touches, with its MRO and subclasses",
     ]
@@ -1224,6 +1473,41 @@ def run(ctx):
     pc = [gen_patch_case(rng, i) for i in range(n_p)]
     ac = [gen_amp_case(rng, i) for i in range(n_a)]
     xc = x64_cases()
+    n_h = 120 if quick else 1500
+    hc = [gen_amp_history_case(rng, i) for i in range(n_h)]
+    scan = cross_call_state_scan()
+    ctx.oblige("tie:apply_monkey_patches-keeps-no-cross-call-state(AST: no module-level container written besides _PATCH_STATE)",
+               not scan, "tie", "" if not scan else f"state that survives a call: {scan}")
+    bad_h, worse_h, coq_fail_h = [], [], ""
+    for c0 in range(0, len(hc), 300):
+        txt = COQ_HEADER + "Definition hcs : list ahcase := " + _lst(l for l, _ in hc[c0:c0 + 300]) + ".\n"
+        txt += f"Eval vm_compute in bad_idx_ (ahcase_ok {_b(fixed_a)} false) 0 hcs.\n"
+        txt += f"Eval vm_compute in bad_idx_ (ahcase_ok {_b(fixed_a)} true) 0 hcs.\n"
+        ok, out = common.coq_eval_file(ctx, f"c13_hist_{c0}", txt, timeout=600)
+        vals = _parse_coq_values(out) if ok else []
+        if not ok or len(vals) < 2 or vals[0] is None or vals[1] is None:
+            coq_fail_h = out[-1500:]
+            continue
+        bad_h += [c0 + i for i in vals[0]]
+        worse_h += [c0 + i for i in vals[1]]
+    for i in worse_h:
+        info = hc[i][1]
+        r = info["call_changed_getattr_in_round"]
+        if r is not None:
+            w = [x["host_write"] for x in info["rounds"][:r + 1]]
+            ctx.violate(f"apply_monkey_patches-history:synthetic:getattr-after-call-differs-from-before-call:host-write={'delete' if any(x and x[2] is None for x in w) else 'rebind' if any(w) else 'none'}",
+                        f"synthetic history of {len(info['rounds'])} activations with host writes {w}: after activation #{r + 1} getattr differs "
+                        f"from what it was immediately before that activation (case {i}); the model (no cross-call state) restores it",
+                        {"kind": "synthetic_amp_history", "seed": ctx.seed, "case": i, "n_patch_cases": n_p, "n_amp_cases": n_a,
+                         "model": info["model"], "rounds": info["rounds"]})
+    ctx.oblige(f"tie:apply_monkey_patches-histories-with-host-writes-model-equals-code({len(hc)} histories)",
+               not coq_fail_h and not worse_h, "tie",
+               coq_fail_h or ("" if not worse_h else f"model and code differ on histories {worse_h[:8]}: {hc[worse_h[0]][1]['rounds']}"))
+    ctx.coverage["tie_apply_monkey_patches_histories"] = {
+        "histories": len(hc), "activations": sum(len(i["rounds"]) for _l, i in hc),
+        "host_writes": sum(i["host_writes"] for _l, i in hc),
+        "host_writes_on_patched_keys": sum(i["host_writes_on_patched_keys"] for _l, i in hc),
+        "implementation_restores_more_than_model": len([i for i in bad_h if i not in worse_h])}
     bad_p, bad_a, bad_x = None, None, None
     outs = []
     for chunk0 in range(0, max(len(pc), len(ac)), 450):
@@ -1313,6 +1597,7 @@ def run(ctx):
         ctx.coverage["amp_enter_fault_probe"] = {k: poison.get(k) for k in
                                                  ("raised", "leaked", "leaked_library", "patch_state", "eager_after", "jit_after")}
     if hist is None:
+        _dedupe(ctx)
         return ctx
 
     # ---- (c) the model on the REAL spec list of this run
@@ -1470,6 +1755,12 @@ def run(ctx):
                          "non_callable_data_rebound_by_libraries(not patch keys)": [x["attr"] for x in hist.get("data_rebinds", [])][:20],
                          "attributes_added(not module-valued)": [a["attr"] for a in hist.get("added", []) if not a["module_valued"]][:20],
                          "worker_seconds": hist["wall"]},
+        "host_rebinding_histories": {
+            "histories[convert; host rebinds/deletes a patched attribute; convert; convert]": len({(x["attr"], x["kind"]) for x in hist.get("rebind_log", [])}),
+            "conversions_checked_against_the_state_right_before_them": len(hist.get("rebind_log", [])),
+            "targets": sorted({f"{x['attr']} [{x['mechanism']}]" for x in hist.get("rebind_log", [])}),
+            "rebinding_kinds": sorted({x["kind"] for x in hist.get("rebind_log", [])}),
+            "failed": [x for x in hist.get("rebind_log", []) if not x["ok"]][:6]},
         "trace_cache": {"histories": len(evs_all), "events": n_ev, "model_pessimistic_on": pess,
                         "callee_without_substituted_functions_after_export": hist["notes"].get("callee_without_substituted_functions_after_export")},
         "evaluations": len(pc) + len(ac) + len(xc) + len(univ) * (1 + len(fvar)) + st["conversions"] + st["probe_calls"] + n_ev,
@@ -1480,6 +1771,7 @@ def run(ctx):
                 "or a jit-cache history with >= 2 events; measured on this run",
         "fault_position_histogram": fh,
     })
+    _dedupe(ctx)
     ctx.samples = ([{"step": s["label"], "raised": s["raised"]} for s in hist["steps"][:6]]
                    + [{"synthetic_case": pc[i][1]["model"], "fault": pc[i][1]["fault"]} for i in range(2)]
                    + [{"jit_cache": c["events"], "results": [r.get("export") or ("ok" if r.get("ok") else "NoMlirRule") for r in c["results"]]}
@@ -1497,7 +1789,7 @@ def replay(path):
         res, err = _collect(p, os.path.join(tmp, "o.json"), 600)
         print(json.dumps(res, indent=1) if res else err)
         return 1 if res and res["findings"] else 0
-    if kind in ("history", "jit_cache"):
+    if kind in ("history", "jit_cache", "rebind"):
         p = _spawn("history", rp.get("seed", 0), "quick", os.path.join(tmp, "o.json"))
         res, err = _collect(p, os.path.join(tmp, "o.json"), 900)
         if not res:
@@ -1506,6 +1798,19 @@ def replay(path):
         keys = [f["key"] for f in res["findings"]] + [f"attr-leak:{d['attr']}" for d in res.get("lookup_diffs", [])]
         print("findings now:", keys)
         return 1 if r.get("key") in keys else 0
+    if kind == "synthetic_amp_history":
+        import random
+        rng = random.Random(rp.get("seed", 0))
+        for i in range(rp.get("n_patch_cases", 360)):
+            gen_patch_case(rng, i)
+        for i in range(rp.get("n_amp_cases", 160)):
+            gen_amp_case(rng, i)
+        info = None
+        for i in range(rp["case"] + 1):
+            _l, info = gen_amp_history_case(rng, i)
+        for x in info["rounds"]:
+            print(x)
+        return 0 if info["call_changed_getattr_in_round"] is None else 1
     if kind in ("synthetic_patch", "synthetic_amp"):
         import random
         rng = random.Random(rp.get("seed", 0))
